@@ -4,6 +4,7 @@
 import IcontractModel.Lemmas.Instances
 import IcontractModel.Spec.Trace
 import IcontractModel.Chain
+import IcontractModel.Lemmas.Order
 namespace Icontract
 open Res List
 
@@ -17,7 +18,11 @@ theorem C16_sync_phase_order (ck : Checker) (o : Oracle) (call : Call) :
       (∀ e ∈ t3, e.isBody = true) ∧ t3.length ≤ 1 ∧ (∀ e ∈ t4, e.isCheck = true) ∧
       condsCalled t1 <+ (ck.pre.flatten.map (·.id)) ∧
       condsCalled t4 <+: (ck.posts.map (·.id)) := by
-  sorry
+  rw [checkedSync_eq]
+  exact checkedG_phase_order (syncHooks_ok o)
+    (fun kw => callsOnce_of_shape (evalPreSync_shape o kw))
+    (fun kw => callsOnce_of_shape (evalPostSync_shape o kw))
+    (fun c kw => createViolationError_conds o c kw) (fun call => runBody_length o call) ck call
 
 theorem C16_async_phase_order (ck : Checker) (o : Oracle) (call : Call) :
     ∃ t1 t2 t3 t4, (checkedAsync ck o call).trace = t1 ++ t2 ++ t3 ++ t4 ∧
@@ -25,14 +30,20 @@ theorem C16_async_phase_order (ck : Checker) (o : Oracle) (call : Call) :
       (∀ e ∈ t3, e.isBody = true) ∧ t3.length ≤ 1 ∧ (∀ e ∈ t4, e.isCheck = true) ∧
       condsCalled t1 <+ (ck.pre.flatten.map (·.id)) ∧
       condsCalled t4 <+: (ck.posts.map (·.id)) := by
-  sorry
+  rw [checkedAsync_eq]
+  exact checkedG_phase_order (asyncHooks_ok o)
+    (fun kw => callsOnce_of_shape (evalCondAsync_shape o kw))
+    (fun kw => callsOnce_of_shape (evalCondAsync_shape o kw))
+    (fun c kw => createViolationError_conds o c kw) (fun call => runBody_length o call) ck call
 
 /-- **Within a group**: conditions are called in list order, each listed position at most once, and
 evaluation stops at the first one that is not truthy — the conditions called are a prefix of the group. -/
 theorem C16_group_called_in_order (o : Oracle) (kw : Kwargs) (g : List Contract) :
     condsCalled (checkGroupSync o kw g).trace <+: g.map (·.id) ∧
     condsCalled (checkGroupAsync o kw g).trace <+: g.map (·.id) := by
-  sorry
+  rw [checkGroupSync_eq, checkGroupAsync_eq]
+  exact ⟨checkGroupG_conds_prefix _ (callsOnce_of_shape (evalPreSync_shape o kw)) g,
+    checkGroupG_conds_prefix _ (callsOnce_of_shape (evalCondAsync_shape o kw)) g⟩
 
 /-- ... and with plain truth values exactly the conditions up to and including the first falsy one. -/
 theorem C16_group_stops_at_first_falsy (o : Oracle) (kw : Kwargs) (g : List Contract)
@@ -40,7 +51,11 @@ theorem C16_group_stops_at_first_falsy (o : Oracle) (kw : Kwargs) (g : List Cont
     condsCalled (checkGroupSync o kw g).trace =
       ((g.takeWhile (fun c => condTruthy false o kw c)) ++
         (match firstFalsy false o kw g with | some c => [c] | none => [])).map (·.id) := by
-  sorry
+  rw [checkGroupSync_eq, checkGroupG_conds_total _ (condTruthy false o kw) (condFalsy false o kw)
+    (evalPreSync_false_iff o kw) (evalPreSync_true_of_falsy o kw)
+    (callsOnce_of_shape (evalPreSync_shape o kw)) g htot]
+  unfold firstFalsy
+  cases g.find? (fun c => !condTruthy false o kw c) <;> rfl
 
 /-- **Groups are tried in order until one holds**: with plain truth values, once a group holds no
 condition of a later group is called. -/
@@ -49,13 +64,20 @@ theorem C16_groups_until_one_holds (o : Oracle) (kw : Kwargs) (gs1 gs2 : List (L
     (hg : ∀ c ∈ g, condTruthy false o kw c = true) :
     (assertPreSyncAux o kw none (gs1 ++ g :: gs2)).trace = (assertPreSyncAux o kw none (gs1 ++ [g])).trace ∧
     (assertPreSyncAux o kw none (gs1 ++ g :: gs2)).out = .ok none := by
-  sorry
+  simp only [assertPreSyncAux_eq]
+  exact assertPreAuxG_until_holds _ (condTruthy false o kw) (condFalsy false o kw)
+    (evalPreSync_false_iff o kw) (evalPreSync_true_of_falsy o kw) gs1 gs2 g none
+    (fun g' hg' => htot g' (List.mem_append_left _ hg')) hg
 
 /-- **The message is built at most once**, and only for the contract whose violation surfaces. -/
 theorem C16_message_built_at_most_once (ck : Checker) (o : Oracle) (call : Call) :
     ((checkedSync ck o call).trace.filterMap Event.msgId).length ≤ 1 ∧
     ((checkedAsync ck o call).trace.filterMap Event.msgId).length ≤ 1 := by
-  sorry
+  rw [checkedSync_eq, checkedAsync_eq]
+  exact ⟨checkedG_msgs (syncHooks_ok o) (fun kw c => (evalPreSync_shape o kw c).msgs)
+      (fun kw c => (evalPostSync_shape o kw c).msgs) (fun c kw => createViolationError_msgs o c kw) ck call,
+    checkedG_msgs (asyncHooks_ok o) (fun kw c => (evalCondAsync_shape o kw c).msgs)
+      (fun kw c => (evalCondAsync_shape o kw c).msgs) (fun c kw => createViolationError_msgs o c kw) ck call⟩
 
 /-- Inherited contracts precede a class's own (chain reading): the effective lists along a chain are
 the concatenation base-first. -/
@@ -63,6 +85,11 @@ theorem C16_inherited_before_own (ls : List Level) (l : Level) :
     chainPosts (ls ++ [l]) = chainPosts ls ++ l.posts ∧
     chainSnaps (ls ++ [l]) = chainSnaps ls ++ l.snaps ∧
     chainPre (ls ++ [l]) = chainPre ls ++ (if l.pre.isEmpty then [] else [l.pre]) := by
-  sorry
+  refine ⟨?_, ?_, ?_⟩
+  · simp [chainPosts, List.flatMap_append]
+  · simp [chainSnaps, List.flatMap_append]
+  · induction ls with
+    | nil => simp [chainPre]
+    | cons a as ih => simp only [List.cons_append, chainPre, ih, List.append_assoc]
 
 end Icontract
